@@ -118,19 +118,49 @@ def _rt_records(t):
     from . import frame as _frame
     mods = lambda: [m for n, m in list(sys.modules.items()) if (n == 'msdm' or n.startswith('msdm.')) and m is not None and not n.startswith('msdm.tests')]
     before = _frame.snapshot(mods())
+    t_start = time.time()
+    history = ''
     try:
         yield from t.harness(*t.args)
-        # frame condition over state that outlives every call: the whole run-time harness (many calls, many models) must leave no module-level or
-        # class-level container of the library changed (modules imported during the run are compared from their import state: new non-empty containers count)
+        # frame condition over state that outlives every call.  A module-level or class-level container of the library that the run has changed is not by
+        # itself a violation of any property (a value-keyed memo or a warn-once registry is harmless); it is the TRIGGER for a longer history: the same
+        # harness is run again in the same process, with a collection in between so that new models may live at the addresses of dead ones, and every
+        # clause of every re-run is judged like the first one.  A violation is then a real clause failing on the real code after a legal sequence of calls.
         ch = [c for c in _frame.changes(before, _frame.snapshot(mods())) if ' changed: ' in c]      # containers of modules first imported during the run are not judged
-        yield dict(name='rt:frame:no-module-level-or-class-level-state-of-the-library-is-left-behind', ok=not ch, witness=dict(task=t.name), detail='; '.join(ch)[:800])
+        yield dict(name='rt:frame:no-module-level-or-class-level-state-of-the-library-is-left-behind(else:the-whole-task-is-re-run-on-top-of-that-state)', ok=True, witness=dict(task=t.name))
+        if ch:
+            import gc
+            t1 = time.time() - t_start
+            reruns = 0
+            while reruns < 4 and (time.time() - t_start) + 1.5 * t1 + 5 < 0.8 * t.deadline_s:
+                reruns += 1
+                history = '[re-run %d of the task in the same process; state retained by the library between calls: %s] ' % (reruns, '; '.join(ch)[:400])
+                gc.collect()
+                for rec in t.harness(*t.args):
+                    if not rec.get('ok'):
+                        rec = dict(rec, detail=history + (rec.get('detail') or ''))
+                    yield rec
+            yield dict(name='rt:frame:state-retained-at-module-or-class-level-changes-no-clause-of-%d-re-runs-of-the-task-in-the-same-process' % reruns, ok=True,
+                       witness=dict(task=t.name, retained='; '.join(ch)[:400]))
+            sys.stderr.write('FRAME-NOTE task=%s: the library retained module-level/class-level state (%s); task re-run %d time(s) on top of it\n' % (t.name, '; '.join(ch)[:300], reruns))
     except (S.Unsupported, _TaskTimeout, KeyboardInterrupt, MemoryError):
         raise
     except Exception as e:
+        # whose call failed: walk from the innermost frame outwards past third-party / standard-library frames; the first frame that belongs to the
+        # repository (the library called numpy/scipy/torch with bad operands) or to the checker (the harness did) decides
         tb = traceback.extract_tb(e.__traceback__)
-        if tb and os.path.realpath(tb[-1].filename).startswith(REPO + '/'):
+        owner = None
+        for fr in reversed(tb):
+            fn = os.path.realpath(fr.filename)
+            if fn.startswith(REPO + '/'):
+                owner = 'repo'
+                break
+            if fn.startswith(os.path.realpath(ROOT) + '/'):
+                owner = 'checker'
+                break
+        if owner == 'repo':
             yield dict(name='rt:no-unexpected-exception-in-repository-code', ok=False, witness=dict(args=repr(t.args)[:300]),
-                       detail='%s: %s\n%s' % (type(e).__name__, e, ''.join(traceback.format_exception(type(e), e, e.__traceback__, limit=-6))))
+                       detail=history + '%s: %s\n%s' % (type(e).__name__, e, ''.join(traceback.format_exception(type(e), e, e.__traceback__, limit=-6))))
         else:
             raise
 
